@@ -34,6 +34,8 @@ pub enum Op {
     Introspect,
     /// build(), then render help of the subcommand addressed by the path through `find_subcommand_mut`
     SubRender(Vec<u8>, bool),
+    /// ambient event: set (Some) or remove (None) the environment variable of the k-th env-bearing argument
+    Env(u8, Option<B>),
 }
 
 impl Op {
@@ -53,6 +55,7 @@ impl Op {
             Op::CloneSwap => "clone_swap",
             Op::Introspect => "introspect",
             Op::SubRender(..) => "sub_render",
+            Op::Env(..) => "env",
         }
     }
     fn mutates_definition_view(&self) -> bool {
@@ -258,7 +261,9 @@ impl Engine for CmdSim {
     }
 
     fn gen(&self, rng: &mut Rng, _tier: Tier) -> C11Sc {
-        let cfg = GenCfg::parse_heavy();
+        let mut cfg = GenCfg::parse_heavy();
+        // a third of the trees carry environment-backed arguments (the variable may move during the history)
+        cfg.allow_env = rng.chance(1, 3);
         // a few attempts to get a spec clap's gate accepts (rejections are counted by exec otherwise)
         let mut spec = gen_tree(rng, &cfg);
         for _ in 0..3 {
@@ -269,7 +274,7 @@ impl Engine for CmdSim {
         }
         let argv0 = pick_argv0(rng, &spec);
         let n_ops = if rng.chance(1, 5) { rng.urange(1, 3) } else { rng.urange(2, 12) };
-        let mut w = [14u32, 3, 3, 2, 2, 2, 1, 1, 1, 1, 2, 2, 1, 2];
+        let mut w = [14u32, 3, 3, 2, 2, 2, 1, 1, 1, 1, 2, 2, 1, 2, if cfg.allow_env { 5 } else { 0 }];
         // swarm: some histories are parse-only (message identity asserted), some render-heavy
         match rng.below(4) {
             0 => {
@@ -313,6 +318,7 @@ impl Engine for CmdSim {
                 10 => Op::Error(rng.below(ERROR_KINDS.len() as u64) as u8),
                 11 => Op::CloneSwap,
                 12 => Op::Introspect,
+                14 => Op::Env(rng.below(8) as u8, if rng.chance(1, 4) { None } else { Some(B::s(*rng.pick(&["v1", "v2", "bad", "7", "", "true"]))) }),
                 _ => Op::SubRender((0..rng.urange(1, 2)).map(|_| rng.below(4) as u8).collect(), rng.coin()),
             });
         }
@@ -331,7 +337,19 @@ impl Engine for CmdSim {
         }
         let mut shape = ShapeHasher::new();
         shape.add(sc.spec.feature_bits());
+        // environment variables of this scenario (set/removed by Env events, removed at the end)
+        let env_names: Vec<String> = {
+            let mut v = Vec::new();
+            sc.spec.walk(&mut |c, _| v.extend(c.args.iter().filter_map(|a| a.env.clone())), 0);
+            v
+        };
+        for n in &env_names {
+            std::env::remove_var(n);
+        }
         let mut aged = build_cmd(&sc.spec);
+        // a clone taken right after the definition and never built: "cloned" in the statement
+        let pristine = aged.clone();
+        let mut env_moved = false;
         // deferred builders make parts of the definition appear only once a subcommand has been
         // built (documented purpose of `defer`), so message identity is not asserted for such trees
         let mut parse_only = !any_defer(&sc.spec);
@@ -366,6 +384,23 @@ impl Engine for CmdSim {
                         }
                         POut::Ok { .. } => out.count("op.parse_ok"),
                         POut::Panic { file, .. } => out.count_dyn(format!("obs.parse_panics_in_{file}")),
+                    }
+                    if env_moved {
+                        // a definition made NOW would legitimately snapshot the new environment; the unbuilt clone
+                        // of the original definition is the reference that must agree with the aged value
+                        let mut p = pristine.clone();
+                        let rp = parse_mut(&mut p, &full);
+                        out.comparisons += 1;
+                        out.count("probe.compared_with_pristine_clone_after_env_change");
+                        if let Some((clause, d)) = compare(&ra, &rp, parse_only) {
+                            let site = classify(&sc.spec, "aged-vs-unbuilt-clone-after-env-change", clause, argv, &ra, &rp);
+                            out.violate(clause, site.clone(), format!("op {i} ({}), argv {:?}: the long-lived command and an unbuilt clone of the same definition disagree after the environment changed: {d}", op.kind(), argv));
+                            if site == "aged-vs-unbuilt-clone-after-env-change" {
+                                break;
+                            }
+                        }
+                        ops_before += 1;
+                        continue;
                     }
                     let mut fresh = build_cmd(&sc.spec);
                     let rf = parse_mut(&mut fresh, &full);
@@ -486,6 +521,19 @@ impl Engine for CmdSim {
                     aged = aged.clone();
                     ev!(log, "{i} clone_swap");
                 }
+                Op::Env(k, v) => {
+                    if !env_names.is_empty() {
+                        let n = &env_names[*k as usize % env_names.len()];
+                        match v {
+                            Some(b) if !b.0.contains(&0) => std::env::set_var(n, b.as_os()),
+                            _ => std::env::remove_var(n),
+                        }
+                        env_moved = true;
+                        out.nontrivial = true;
+                        out.count(if v.is_some() { "ambient.env_set_after_definition" } else { "ambient.env_removed_after_definition" });
+                        ev!(log, "{i} env {n} <- {:?}", v);
+                    }
+                }
                 Op::SubRender(path, long) => {
                     parse_only = false;
                     let r = catch(|| {
@@ -522,6 +570,9 @@ impl Engine for CmdSim {
                 }
             }
             ops_before += 1;
+        }
+        for n in &env_names {
+            std::env::remove_var(n);
         }
         out.shape = shape.get();
         out
